@@ -14,6 +14,7 @@
 import Hy.Proofs.PortUnion
 import Hy.Proofs.Hop
 import Hy.Proofs.HopAddr
+import Hy.Gen.TransHop
 set_option linter.unusedSimpArgs false
 namespace Hy.Props.C19
 open Hy Hy.PortUnion Hy.Hop Hy.HopAddr
@@ -499,5 +500,49 @@ theorem interval_spec (c : Interval) :
 example : normalized ⟨10 * second, 15 * second⟩ = some ⟨10 * second, 15 * second⟩ := by decide
 example : normalized ⟨3 * second, 3 * second⟩ = none ∧ normalized ⟨0, 5 * second⟩ = none ∧
     normalized ⟨10 * second, 5 * second⟩ = none ∧ normalized ⟨-1, -1⟩ = none := by decide
+
+/-! ### the hop-interval arithmetic as TRANSLATED from the current Go source equals the model's
+
+`Hy.Gen.TransHop.*` is regenerated on every run by `verifgen translate` from the text of
+`HopIntervalConfig.normalized` and `(*udpHopPacketConn).nextHopInterval` in extras/transport/udphop/conn.go
+(go/ast → Lean: `time.Duration` = int64, `defaultHopInterval` and `5*time.Second` resolved to their
+current values; the result `(HopIntervalConfig, error)` is `Res (Max × Min)` with `Res.reject` for every
+`errors.New(…)`; `u.HopInterval.Min/Max` are parameters; `rand.Int63n` is a function parameter).
+`normalized_translation_eq` holds for EVERY pair of integers; `nextHopInterval_translation_eq` for every
+0 ≤ min ≤ max < 2^62 and every random source — in particular the bound handed to `rand.Int63n` is
+`max − min + 1`, the one `interval_spec` speaks about.  No sampling is involved for these two functions. -/
+
+set_option linter.unusedSimpArgs false in
+theorem normalized_translation_eq (c : Interval) :
+    Gen.TransHop.HopIntervalConfig_normalized c.max c.min
+      = (match normalized c with
+         | some c' => Res.ok (c'.max, c'.min)
+         | none => Res.reject) := by
+  have hsec : second = 1000000000 := rfl
+  have hdef : (Gen.udphopDefaultHopIntervalNs : Int) = 30000000000 := by decide
+  unfold Gen.TransHop.HopIntervalConfig_normalized normalized
+  by_cases a : c.min = 0 <;> by_cases b : c.max = 0 <;> by_cases d : c.min > c.max <;>
+    by_cases e : c.min < 5000000000 <;> simp [hsec, hdef, a, b, d, e] <;> omega
+
+theorem nextHopInterval_translation_eq (c : Interval) (rnd : Int → Int)
+    (h0 : 0 ≤ c.min) (h1 : c.min ≤ c.max) (h2 : c.max < 4611686018427387904)
+    (hr : ∀ n, 0 ≤ rnd n ∧ rnd n < 4611686018427387904) :
+    Gen.TransHop.udpHopPacketConn_nextHopInterval c.max c.min rnd
+      = nextHopInterval c (rnd (c.max - c.min + 1)) := by
+  have hrr := hr (c.max - c.min + 1)
+  generalize hR : rnd (c.max - c.min + 1) = r at hrr ⊢
+  have harg : ∀ a : Int, a = c.max - c.min + 1 → rnd a = r := fun a h => by rw [h, hR]
+  unfold Gen.TransHop.udpHopPacketConn_nextHopInterval nextHopInterval
+  simp (disch := omega) only [GoInt.i64_of_range]
+  by_cases he : c.min = c.max
+  · rw [if_pos (by omega), if_pos he]
+  · rw [if_neg (by omega), if_neg he]
+    rw [harg _ (by omega)]
+    all_goals try simp (disch := omega) only [GoInt.i64_of_range]
+    all_goals try omega
+
+example : Gen.TransHop.HopIntervalConfig_normalized 0 0 = .ok (30000000000, 30000000000) := by decide
+example : Gen.TransHop.HopIntervalConfig_normalized 10000000000 4999999999 = .reject := by decide
+example : Gen.TransHop.udpHopPacketConn_nextHopInterval 9000000000 5000000000 (fun n => n - 1) = 9000000000 := by decide
 
 end Hy.Props.C19
